@@ -29,7 +29,7 @@ COMPONENTS = {"real": ["BoxPortfolio", "DiscretePortfolio", "PortfolioSpace.make
               "harness": ["malformed-action catalogue", "delivery model"], "stub": []}
 PROBE_FLOORS = {"malformed_nan": 11, "malformed_shape": 34, "malformed_bound_ulp": 12, "malformed_bad_index": 40,
                 "malformed_deep_in_queue_episode_ends_first": 10, "in_space_on_bound": 50, "list_action": 116, "float32_action": 125,
-                "cash_entry_ignored": 200, "frictionless_weights_checked": 200, "malformed_rejected_when_due": 177}
+                "cash_entry_ignored": 200, "discrete_nr_contracts_mode": 30, "frictionless_weights_checked": 200, "malformed_rejected_when_due": 177}
 
 PROFILE = {
     "n_min": 3, "n_max": 10, "n_long": 20, "p_long": 0.05, "c_min": 1, "c_max": 3, "p_bar": 1.0, "extras_max": 4,
@@ -59,6 +59,18 @@ def generate(rng, i):
         sp["low"], sp["high"] = -50.0, 50.0
         env["cash"] = 1e7          # contract counts of a few units must stay far from ruin
         if rng.random() < 0.4:
+            sp["fractional"] = False
+    elif sp["type"] == "box" and rng.random() < 0.15:
+        sp["fractional"] = False       # weights, whole lots
+        env["cash"] = 1e7
+    if sp["type"] == "discrete" and rng.random() < 0.4:
+        # discrete tables in number-of-contract mode and / or whole lots
+        mode = rng.choice(["nr", "nr_whole", "weights_whole"])
+        env["cash"] = 1e7
+        if mode in ("nr", "nr_whole"):
+            sp["as_weights"] = False
+            sp["allocations"] = [[float(rng.choice([0, 1, 2, -1, 3, 0.5, 7.5])) for _ in row] for row in sp["allocations"]]
+        if mode in ("nr_whole", "weights_whole"):
             sp["fractional"] = False
     n = len(env["contracts"]) + (1 if sp.get("with_cash") else 0)
     steps = gen_epi.episode_steps(env, None)
@@ -225,6 +237,17 @@ def execute(scenario):
                             k, cash_w, spot_w, marg, 1.0 - spot_w - marg), op=k, kind="cash_residual")
                         break
                 probe("frictionless_weights_checked")
+            if sp.get("as_weights", True) and not sp.get("fractional", True) and reb["post"] is not None and reb["pre"] is not None and not sp.get("margin"):
+                # weights with whole lots: positions are integers and within one lot of the fractional target
+                for sym, w in want.items():
+                    q = reb["post"]["nr"].get(sym, 0.0)
+                    bid, ask = ex[0]["books"][sym]
+                    target = w * reb["pre"]["nlv"] / ((ask if w > 0 else bid) * float(epicheck_params(h, sym)[0]))
+                    before = ex[0]["hold_before"].get(sym, 0.0)
+                    if abs((q - before) - round(q - before)) > 1e-9 or abs(q - target) >= 1.0 + 1e-9:
+                        violate("executed_weights", "step {}: whole-lot position of {} is {} (was {}) but weight {} needs {}".format(k, sym, q, before, w, target), op=k, kind="whole_lots")
+                        break
+                probe("whole_lot_weights_checked")
             if not sp.get("as_weights", True) and sp.get("fractional", True) and reb["post"] is not None and not sp.get("margin"):
                 for sym, q in want.items():
                     if abs(reb["post"]["nr"].get(sym, 0.0) - q) > 1e-9 * max(1.0, abs(q)):
@@ -239,6 +262,8 @@ def execute(scenario):
             if pending_bad + delay >= n_done:
                 probe("malformed_deep_in_queue_episode_ends_first")
         kinds.append("{}{}".format(len(ep["steps"]), "x" if dead else ""))
+    if sp["type"] == "discrete" and not sp.get("as_weights", True):
+        probe("discrete_nr_contracts_mode")
     trace = "{}|w{}f{}c{}m{}|d{}|{}|{}|{}".format(sp["type"], int(sp.get("as_weights", True)), int(sp.get("fractional", True)), int(bool(sp.get("with_cash"))),
                                                  sp.get("margin", 0), delay, bad_kind, "".join(kinds), int(bool(scenario.get("frictionless"))))
     return {"violations": violations, "digest": core.digest(sim.log_for_digest()), "probes": probes, "faults": sim.faults,
